@@ -37,6 +37,7 @@ ATTR_CANDIDATES = [
     # the argument of size/len/len_trim is not an argument name; text after a complete expression
     ("implied", "size(3)"), ("implied", "size(p+1)"), ("implied", "len(3)"), ("implied", "size(p) 4"), ("implied", "n 1"),
     ("dimension", "3 4"), ("dimension", "n,2 n"), ("rank", "8"), ("rank", "7"), ("implied", "size(zzz)"), ("implied", "len(zzz)"),
+    ("implied", "size(p,)"), ("implied", "size(p,2,)"),
     # documented form +name=scalar with a number where text is expected (and +len=30, documented)
     ("intent", "=1"), ("implied", "=1"), ("dimension", "=2"), ("name", "=1.5"), ("deref", "=1"), ("owner", "=x"), ("len", "=30"),
     ("charlen", "=8"), ("rank", "=1"), ("free_pattern", "=1"),
@@ -267,6 +268,10 @@ def documented_misuse(kind, shape, picks):
             v = attrs.get(k)
             if isinstance(v, str) and trailing_text(v):
                 return "the value of %s has text after a complete expression" % k
+    if kind in ("arg", "generic"):
+        v = attrs.get("implied")
+        if isinstance(v, str) and re.search(r",\s*\)", v) and not (kind == "arg" and "(*cb)" in ARG_SHAPES[shape]):
+            return "the value of implied has a ',' with no argument after it"
     if "nosuchattribute" in attrs:
         return "the attribute name 'nosuchattribute' is not one Shroud knows"
     if "dimension" in attrs and attrs["dimension"] is True:
